@@ -138,6 +138,12 @@ func (d *dest) intercept(c reflog.Call) (proto.Message, error, bool) {
 	if len(req.Leaves) > 0 && req.Leaves[0] != nil {
 		first = req.Leaves[0].LeafIndex
 	}
+	if first < 0 {
+		// a request without leaves (the Fetcher passes an empty get-entries page on): no fault plan applies,
+		// the backend refuses it like Trillian does (InvalidArgument)
+		d.rec.add(ev{Kind: "add", First: first, Served: 0, Digest: reqDigest(req), CallIdx: c.N})
+		return nil, nil, false
+	}
 	d.mu.Lock()
 	k := d.perStart[first]
 	d.perStart[first] = k + 1
